@@ -698,4 +698,41 @@ example : oracle13r OrcEx.wWd OrcEx.opWd [[4, 100, 2, 5]] = false ∧
 #print axioms sound_o13r
 #print axioms sound_o13r_impl
 
+/-! ### `o04b` (C04: a purchase never overwrites a third party's bucket) follows from unique bucket ids -/
+
+theorem filter_len_le_one_of_keys {κ ν : Type} (p : κ × ν → Bool) :
+    ∀ (l : List (κ × ν)), (akeys l).Nodup →
+      (∀ a ∈ l, ∀ b ∈ l, p a = true → p b = true → a.1 = b.1) → (l.filter p).length ≤ 1
+  | [], _, _ => by simp
+  | x :: xs, hn, h => by
+    have hn' : (akeys xs).Nodup := by
+      simp only [akeys, List.map_cons, List.nodup_cons] at hn; exact hn.2
+    have hx : x.1 ∉ akeys xs := by
+      simp only [akeys, List.map_cons, List.nodup_cons] at hn; exact hn.1
+    have ih := filter_len_le_one_of_keys p xs hn'
+      (fun a ha b hb => h a (List.mem_cons_of_mem _ ha) b (List.mem_cons_of_mem _ hb))
+    cases hp : p x with
+    | false => simp only [List.filter_cons, hp]; exact ih
+    | true =>
+      have hnil : xs.filter p = [] := by
+        rw [List.filter_eq_nil_iff]
+        intro y hy hpy
+        have := h y (List.mem_cons_of_mem _ hy) x (List.mem_cons_self) hpy hp
+        exact hx (this ▸ List.mem_map_of_mem (f := (·.1)) hy)
+      simp [hp, hnil]
+
+/-- `o04b` never fires on a state with unique bucket ids (`IdsInv`), whatever the outcome -/
+theorem sound_o04b (w : World) (op : Op) (ok : Bool) (hI : IdsInv w.mkt) : oracle04b w op ok = true := by
+  unfold oracle04b
+  split
+  · next bid =>
+    have := filter_len_le_one_of_keys (fun p => decide (p.1.2 = bid)) w.mkt.buckets hI.bkeys
+      (fun a ha b hb hpa hpb => hI.bidInj a ha b hb (by
+        simp only [decide_eq_true_eq] at hpa hpb; rw [hpa, hpb]))
+    simp only [Bool.not_eq_true', Bool.and_eq_false_iff, decide_eq_false_iff_not]
+    exact .inr (by omega)
+  · rfl
+
+#print axioms sound_o04b
+
 end Fuzion
